@@ -11,6 +11,7 @@ import (
 	"io"
 	"slices"
 	"sort"
+	"time"
 
 	proto4 "go.sia.tech/core/rhp/v4"
 	"go.sia.tech/core/types"
@@ -23,6 +24,7 @@ const (
 	kindFreeRaw    = 1 // the indices exactly as given, on the raw stream
 	kindAppend     = 2
 	kindRoots      = 3
+	kindAccount    = 5 // account-paid RPCs: read, verify, write a sector (4 is the law check of the runner)
 
 	scriptComplete       = 0
 	scriptCloseAfterReq  = 1 // request written, stream closed, response never read
@@ -32,7 +34,21 @@ const (
 	scriptHalfRequest    = 5 // RPC id and half of the request written, stream closed
 )
 
-var kindNames = []string{"free-client", "free-raw", "append", "roots"}
+var kindNames = []string{"free-client", "free-raw", "append", "roots", "law", "account"}
+
+// variants of an account-paid attempt
+const (
+	acctValid          = 0 // must be served and charged exactly the cost
+	acctUnknownRoot    = 1 // read / verify of a root the host does not store
+	acctBadRange       = 2 // misaligned or out-of-bounds range, leaf index, data length (raw stream)
+	acctExpiredToken   = 3 // (raw stream: the renter functions refuse to send these)
+	acctForgedToken    = 4 // token signed by another key
+	acctWrongHostToken = 5 // token issued for another host
+	acctUnfunded       = 6 // valid request on an account without funds
+	acctTruncatedData  = 7 // write: the announced data never arrives
+)
+
+var acctVariantNames = []string{"valid", "unknown-root", "bad-range", "expired-token", "forged-token", "wrong-host-token", "unfunded-account", "truncated-data"}
 var scriptNames = []string{"complete", "close-after-request", "close-after-first-response", "bad-signature", "close-after-signature", "half-request"}
 
 // attempt is the abstract description of one RPC attempt (also the replay format).
@@ -46,11 +62,17 @@ type attempt struct {
 	Len     uint64   `json:"length,omitempty"`
 	BadSig  int      `json:"bad_signature_variant,omitempty"`
 	Raw     bool     `json:"raw,omitempty"` // listing: complete script on the raw stream (the proof is observed)
+	Op      string   `json:"op,omitempty"`  // account: read | verify | write
+	Variant int      `json:"variant,omitempty"`
+	Root    int      `json:"root,omitempty"` // account: pool number or unknown number
 }
 
 const unknownBase = 1000
 
 func (a attempt) String() string {
+	if a.Kind == kindAccount {
+		return fmt.Sprintf("account/%s/%s(root %d, offset %d, length %d)", a.Op, acctVariantNames[a.Variant], a.Root, a.Off, a.Len)
+	}
 	s := kindNames[a.Kind] + "/" + scriptNames[a.Script]
 	switch a.Kind {
 	case kindFreeClient, kindFreeRaw:
@@ -74,6 +96,9 @@ type observed struct {
 	gotResp   bool            // the first response was read
 	proofLen  int             // roots on the raw stream: number of hashes in the proof (-1: not observed)
 	result    *types.V2FileContract
+	panicked  string // a call into the code under test panicked on the renter side
+	served    bool   // account: the renter got the service it paid for
+	data      []byte // account read: the bytes returned
 }
 
 func (e *env) unknownRoot(n int) types.Hash256 {
@@ -108,9 +133,133 @@ func (e *env) badSignature(variant int, good types.Signature, sigHash types.Hash
 
 func closeAndForget(s io.Closer) { s.Close() }
 
-// run performs the attempt; the renter's view of the contract is the host's
-// current revision (before).
+// run performs the attempt with every call into the code under test under recover: a
+// panic of a renter function against an honest host is an observation, not the end of
+// the harness.
 func (e *env) run(a attempt, before snap) (ob observed) {
+	defer func() {
+		if r := recover(); r != nil {
+			ob.panicked = fmt.Sprint(r)
+			ob.clientErr = "panic: " + ob.panicked
+			ob.served = false
+		}
+	}()
+	if a.Kind == kindAccount {
+		return e.runAccount(a)
+	}
+	return e.runContract(a, before)
+}
+
+// accountCost is what the attempt must cost when it is served.
+func (e *env) accountCost(a attempt) types.Currency {
+	switch a.Op {
+	case "read":
+		return e.prices.RPCReadSectorCost(a.Len).RenterCost()
+	case "verify":
+		return e.prices.RPCVerifySectorCost().RenterCost()
+	default:
+		return e.prices.RPCWriteSectorCost(a.Len).RenterCost()
+	}
+}
+
+// runAccount performs a read / verify / write attempt: through the renter functions when
+// they would send the request, on the raw stream when they refuse to.
+func (e *env) runAccount(a attempt) (ob observed) {
+	ctx := context.Background()
+	ob.proofLen = -1
+	key := e.renterKey
+	if a.Variant == acctUnfunded {
+		key = e.poorKey
+	}
+	token := proto4.NewAccountToken(key, e.hostKey.PublicKey())
+	switch a.Variant {
+	case acctExpiredToken:
+		token.ValidUntil = time.Now().Add(-time.Minute)
+		token.Signature = key.SignHash(token.SigHash())
+	case acctForgedToken:
+		token.Signature = e.poorKey.SignHash(token.SigHash())
+	case acctWrongHostToken:
+		token = proto4.NewAccountToken(key, e.renterKey.PublicKey())
+	}
+	root := e.sectorRoot(a.Root)
+	fail := func(err error) observed {
+		if err != nil {
+			ob.clientErr = err.Error()
+		}
+		return ob
+	}
+	data := make([]byte, a.Len)
+	for i := range data {
+		data[i] = byte(a.Root*31 + i + int(a.Off))
+	}
+	if a.Variant == acctValid || a.Variant == acctUnknownRoot || a.Variant == acctUnfunded {
+		switch a.Op {
+		case "read":
+			var buf bytes.Buffer
+			_, err := rhp4.RPCReadSector(ctx, e.tc, e.prices, token, &buf, root, a.Off, a.Len)
+			ob.served, ob.data = err == nil, buf.Bytes()
+			return fail(err)
+		case "verify":
+			_, err := rhp4.RPCVerifySector(ctx, e.tc, e.prices, token, root)
+			ob.served = err == nil
+			return fail(err)
+		default:
+			_, err := rhp4.RPCWriteSector(ctx, e.tc, e.prices, token, bytes.NewReader(data), a.Len)
+			ob.served = err == nil
+			return fail(err)
+		}
+	}
+	s, err := e.tc.DialStream(ctx)
+	if err != nil {
+		return fail(err)
+	}
+	defer s.Close()
+	switch a.Op {
+	case "read":
+		req := proto4.RPCReadSectorRequest{Prices: e.prices, Token: token, Root: root, Offset: a.Off, Length: a.Len}
+		if err := proto4.WriteRequest(s, proto4.RPCReadSectorID, &req); err != nil {
+			return fail(err)
+		}
+		var resp proto4.RPCReadSectorResponse
+		if err := proto4.ReadResponse(s, &resp); err != nil {
+			return fail(err)
+		}
+		ob.data = make([]byte, resp.DataLength)
+		_, err := io.ReadFull(s, ob.data)
+		ob.served = err == nil
+		return fail(err)
+	case "verify":
+		req := proto4.RPCVerifySectorRequest{Prices: e.prices, Token: token, Root: root, LeafIndex: a.Off}
+		if err := proto4.WriteRequest(s, proto4.RPCVerifySectorID, &req); err != nil {
+			return fail(err)
+		}
+		var resp proto4.RPCVerifySectorResponse
+		err := proto4.ReadResponse(s, &resp)
+		ob.served = err == nil
+		return fail(err)
+	default:
+		req := proto4.RPCWriteSectorRequest{Prices: e.prices, Token: token, DataLength: a.Len}
+		if err := proto4.WriteRequest(s, proto4.RPCWriteSectorID, &req); err != nil {
+			return fail(err)
+		}
+		if a.Variant == acctTruncatedData {
+			s.Write(data[:len(data)/2])
+			closeAndForget(s)
+			return ob
+		}
+		if _, err := s.Write(data); err != nil {
+			return fail(err)
+		}
+		var resp proto4.RPCWriteSectorResponse
+		err := proto4.ReadResponse(s, &resp)
+		ob.served = err == nil
+		return fail(err)
+	}
+}
+
+// runContract performs a free / append / listing attempt; the renter's view of the
+// contract is the host's current revision (before).
+func (e *env) runContract(a attempt, before snap) (ob observed) {
 	ctx := context.Background()
 	rev := rhp4.ContractRevision{ID: e.cid, Revision: before.rev}
 	ob.proofLen = -1
